@@ -308,6 +308,15 @@ def run(ctx: Ctx) -> int:
     bad_c = [n_ for n_ in apc if not isinstance(n_.ops[0], (ast.Eq, ast.NotEq))]
     ctx.oblige("C15.a", not bad_c, bad_c[0] if bad_c else apc[0], "links are selected by the value of apply_on" if not bad_c else f"`{ast.unparse(bad_c[0])}` compares strings by identity: a link declared with an apply_on string built at run time (read from a settings file) is accepted - its target is replaced and dropped from the required keys - but never selected for application", fn=gla, construct="apply_on compared by value")
 
+    # a link may hand an OBJECT to its target (an instance built for the source, or an attribute of it): between
+    # apply_instantiation_links and the constructor call the init_args are re-branched (containers copied), never
+    # deep-copied - the target receives the source's object, not a clone of it
+    act15 = ctx.func("_typehints:adapt_class_type")
+    dcs = [c for c in calls_in(act15) if isinstance(c.func, ast.Name) and c.func.id == "deepcopy" or (isinstance(c.func, ast.Attribute) and c.func.attr == "deepcopy")]
+    dcs = [c for c in dcs if any("init_args" in ast.unparse(a) for a in c.args)]
+    ok = not dcs
+    ctx.oblige("C15.d", ok, dcs[0] if dcs else act15, "init_args are copied structurally (recreate_branches): objects inside keep their identity" if ok else f"`{src(dcs[0], 60)}` deep-copies the init_args: an object linked into a subclass argument (a tokenizer built for the source) is cloned just before the target is constructed - the target works on a copy and later changes of the source are invisible to it", fn=act15, construct="linked objects keep identity")
+
     # ---------------- C15.f ----------------------------------------------------
     # "the target of a link is not required from the user": _add_signature_parameter turns a required parameter that
     # is a link target into an optional one.  Every decision that depends on `is_required` (fallback type for untyped
